@@ -17,6 +17,8 @@ import importlib.util
 import os
 import pathlib
 
+import re
+
 import z3
 
 from pyvc.models.ext import CsvRow
@@ -259,6 +261,21 @@ def build(tier="quick", seed=0):
         name = f"C20.text[template {spec_!r}, s={sval!r}]"
         pack.add(Obligation(name, lambda tier, name=name, spec_=spec_, sval=sval, want=want: prove_paths(name, th_text_concrete(spec_, sval), lambda p: (p.value[0] == want and p.value[1] >= 2, f"text output {p.value[0]!r}, expected {want!r}")),
                             replay=lambda w, spec_=spec_, sval=sval: {"call": "c20_text", "args": {"format_spec": spec_, "s": sval}}, functions=FU, mode="representative templates and values (escape sequences in the template vs. in values, unknown names, format specs, undecodable bytes)"))
+
+    # a template with format specs applied to a record whose fields are unset: the writer does not fail; what is set is rendered as the template says
+    UNSET_CASES = [("{s:>6}|{n:05d}|{n}", {"n": 42}, rb"\s*\S*\|00042\|42\n"), ("{s:>6}|{n:05d}|{n}", {}, rb"[^|]*\|[^|]*\|[^|]*\n"), ("{n:x}-{s:^7}-{_source:>3}", {"s": "mid"}, rb"[^-]*-  mid  -[^-]*\n"), ("{s!r:>8}.{n:>4}", {}, rb"[^.]*\.[^.]*\n")]
+    for spec_, setv, rx in UNSET_CASES:
+        name = f"C20.text[template {spec_!r}, fields set: {sorted(setv) or 'none'}]"
+
+        def th_unset(spec_=spec_, setv=setv):
+            fp = AbsFile(it, mode="wb")
+            A = it.call(RD, ["c20/a", [("varint", "n"), ("string", "s")]], {})
+            w = it.call(tx.g["TextWriter"], [fp], {"format_spec": spec_})
+            it.call(it.getattr_(w, "write"), [it.call(A, [], dict(setv, _generated=GEN))], {})
+            return fp.content()
+
+        pack.add(Obligation(name, lambda tier, name=name, th_unset=th_unset, rx=rx: prove_paths(name, th_unset, lambda p, rx=rx: (len(p.value) == 1 and isinstance(p.value[0], bytes) and re.fullmatch(rx, p.value[0]) is not None, f"text output {p.value!r}, expected one line of the form {rx!r}")),
+                            replay=lambda w, spec_=spec_, setv=setv, rx=rx: {"call": "c20_text_unset", "args": {"format_spec": spec_, "setv": setv, "rx": rx.decode()}}, functions=FU, mode="representative templates with format specs over unset fields"))
 
     # ------------------------------------------------------------------ totality over every field type
     def th_total(t, src, display):
